@@ -25,8 +25,18 @@ THE SOFTWARE.
 
 # {{{ fuse_two_phases
 
-def fuse_two_phases(phase_name, phase1, phase2):
+def fuse_two_phases(phase_name, phase1, phase2,
+        should_disambiguate_name=None):
     from dagrt.language import ExecutionPhase
+
+    if should_disambiguate_name is None:
+        # Time, time step and persistent state are shared between the two
+        # methods, only per-step variables need to be kept apart.
+        from dagrt.utils import is_state_variable
+
+        def should_disambiguate_name(name):
+            return not is_state_variable(name)
+
     if phase1 is not None and phase2 is not None:
         if phase1.next_phase != phase2.next_phase:
             raise ValueError("DAGs don't agree on default "
@@ -35,7 +45,8 @@ def fuse_two_phases(phase_name, phase1, phase2):
 
         from pymbolic.imperative.transform import disambiguate_and_fuse
         new_statements, _, old_2_id_to_new_2_id = disambiguate_and_fuse(
-                phase1.statements, phase2.statements)
+                phase1.statements, phase2.statements,
+                should_disambiguate_name)
 
         return ExecutionPhase(
                 name=phase1.name,
@@ -63,7 +74,8 @@ def fuse_two_dags(dag1, dag2, phase_correspondences=None,
         phase1 = dag1.phases.get(phase_name)
         phase2 = dag2.phases.get(phase_name)
 
-        new_phases[phase_name] = fuse_two_phases(phase_name, phase1, phase2)
+        new_phases[phase_name] = fuse_two_phases(phase_name, phase1, phase2,
+                should_disambiguate_name)
 
     if dag1.initial_phase != dag2.initial_phase:
         raise ValueError("DAGs don't agree on initial phase")
